@@ -11,7 +11,8 @@
     approval ballots are sets, cardinal/cumulative ballots are dicts, ordinal ballots are ordered;
     a `Profile` is a list (order kept);
   * exceptions are `Except PErr`, `PErr` = the exception class.
-  Not modelled: the CSV quoting layer, `natsort` (the writer's permutation of project and vote rows),
+  The CSV text layer (reader, writer, line splitting) is modelled in PabuModel/Csv.lean (`parseText`, `writeText`).
+  Not modelled: `natsort` (the writer's permutation of project and vote rows),
   the order of the columns the writer emits (hash order of Python sets), `mpq` syntax beyond
   `-?digits`, `-?digits.digits`, `-?digits/digits`.
 -/
